@@ -225,4 +225,75 @@ theorem float_neg_ofNat_bits {n : Nat} (hn : 0 < n) (hlt : n < 2 ^ 53) :
   show 1 * 2 ^ 63 + intPat n = _
   omega
 
+/-! ## `intPat n` is the pattern `roundRat` (hence `parseBits`) assigns to `n` -/
+
+/-- a finite positive pattern whose value is the integer `n` is what `roundRat` returns on `n/1`
+(the argument of `FCL.roundRat_int`, for a given pattern). -/
+theorem roundRat_eq_of_intPattern (f : FloatFmt) (hp : 2 ≤ f.p) (b n : Nat) (hb0 : 0 < b) (hbi : b < f.infBits)
+    (hb : FCL.IntPattern f b n) : roundRat f n 1 = b := by
+  have hm0 := (FCL.decompose_facts f (by omega) b hb0).1
+  have hI : FCL.InIv f b n 1 := by
+    refine FCL.exact_inIv f b n 1 (by decide) hm0 ?_
+    obtain ⟨_, hexp, hmant⟩ := hb
+    have hN : FCL.pN 2 ((decompose f b).2 - 2) = 1 := by
+      unfold FCL.pN; rw [show ((decompose f b).2 - 2).toNat = 0 by omega]
+    have hD : FCL.pD 2 ((decompose f b).2 - 2) = 4 * 2 ^ (-(decompose f b).2).toNat := by
+      unfold FCL.pD
+      rw [show (-((decompose f b).2 - 2)).toNat = (-(decompose f b).2).toNat + 2 by omega, Nat.pow_add]
+      omega
+    rw [hN, hD, hmant]
+    generalize 2 ^ (-(decompose f b).2).toNat = S
+    grind
+  exact FCL.roundRat_of_inInterval f hp b hb0 hbi n 1 hb.pos (by decide) hI
+
+theorem intPat_fields {n : Nat} (hn : 0 < n) (hlt : n < 2 ^ 53) :
+    intPat n / 2 ^ 52 = 1023 + n.log2 ∧ intPat n % 2 ^ 52 = n * 2 ^ (52 - n.log2) - 2 ^ 52 ∧
+    0 < intPat n ∧ intPat n < 0x7FF0000000000000 := by
+  obtain ⟨b1, b2, b3⟩ := intM_bounds hn hlt
+  unfold intPat
+  generalize n * 2 ^ (52 - n.log2) = m at *
+  generalize n.log2 = L at *
+  omega
+
+theorem intPattern_intPat {n : Nat} (hn : 0 < n) (hlt : n < 2 ^ 53) : FCL.IntPattern fmt64 (intPat n) n := by
+  obtain ⟨b1, b2, b3⟩ := intM_bounds hn hlt
+  obtain ⟨f1, f2, f3, f4⟩ := intPat_fields hn hlt
+  have e52 : fmt64.p - 1 = 52 := rfl
+  have hd := FCL.decompose_norm fmt64 (intPat n)
+  rw [e52, f1, f2, show fmt64.bias = 1023 from by decide] at hd
+  have hd' : decompose fmt64 (intPat n) = (n * 2 ^ (52 - n.log2), (n.log2 : Int) - 52) := by
+    rw [hd (by omega), Prod.mk.injEq]
+    constructor <;> omega
+  refine ⟨hn, ?_, ?_⟩
+  · rw [hd']; show (n.log2 : Int) - 52 ≤ 0; omega
+  · rw [hd']
+    show n * 2 ^ (52 - n.log2) = n * 2 ^ (-((n.log2 : Int) - 52)).toNat
+    rw [show (-((n.log2 : Int) - 52)).toNat = 52 - n.log2 by omega]
+
+/-- **`intPat n = roundRat fmt64 n 1`**: the model's integer conversion and the decimal parser agree. -/
+theorem roundRat_int_eq {n : Nat} (hn : 0 < n) (hlt : n < 2 ^ 53) : roundRat fmt64 n 1 = intPat n := by
+  obtain ⟨f1, f2, f3, f4⟩ := intPat_fields hn hlt
+  exact roundRat_eq_of_intPattern fmt64 (by decide) (intPat n) n f3
+    (by show intPat n < 0x7FF0000000000000; exact f4) (intPattern_intPat hn hlt)
+
+/-- **`Float.ofInt z` has the bit pattern `intBits fmt64 z`** for every `|z| < 2^53`. -/
+theorem float_ofInt_bits (z : Int) (hz : z.natAbs < 2 ^ 53) : (Float.ofInt z).toBits.toNat = FCL.intBits fmt64 z := by
+  unfold FCL.intBits
+  cases z with
+  | ofNat n =>
+    have hn : (Int.ofNat n).natAbs = n := rfl
+    rw [hn] at hz ⊢
+    rw [if_neg (show ¬ Int.ofNat n < 0 from Int.not_lt.mpr (Int.natCast_nonneg n))]
+    show (Float.ofNat n).toBits.toNat = _
+    by_cases h0 : n = 0
+    · subst h0; rw [float_ofNat_zero_bits]; rfl
+    · rw [float_ofNat_bits (by omega) hz, roundRat_int_eq (by omega) hz]
+  | negSucc n =>
+    have hn : (Int.negSucc n).natAbs = n + 1 := rfl
+    rw [hn] at hz ⊢
+    rw [if_pos (Int.negSucc_lt_zero n)]
+    show (Float.neg (Float.ofNat (n + 1))).toBits.toNat = _
+    rw [float_neg_ofNat_bits (by omega) hz, roundRat_int_eq (by omega) hz]
+    rfl
+
 end Rosu.FM
